@@ -48,6 +48,7 @@ such orders (c16.fixpoint), so a loop that stops too early breaks the tie.
 import concurrent.futures
 import copy
 import hashlib
+import itertools
 import json
 import os
 import re
@@ -116,6 +117,11 @@ WORDS = ['Alpha', 'Beta', 'Gamma', 'Delta', 'Eps', 'Zeta', 'Eta', 'Theta', 'Iota
          'Egg', 'Fig', 'Gnu', 'Hat', 'Ink', 'Jar', 'Kit', 'Log', 'Map', 'Net', 'Owl', 'Pen', 'Quiz', 'Rat', 'Sun',
          'Tip', 'Urn', 'Van', 'Web', 'Yak', 'Zip', 'a1', 'B2', 'Zz', 'aa', 'Ab']
 FILES = ['/src/a.h', '/src/b.h', '/src/sub/c.h', '/src/d.h', '/src/foo.h', '/src/sub/deep/e.h', '/other/x.h']
+# headers with ONE file name in several directories (same depth, different depths, outside the source
+# top directory): positions of one node that agree in base name + line (+ column) and differ only in
+# the directory must still be told apart by the choice of the main position
+TIE_FILES = ['/src/core/types.h', '/src/ui/types.h', '/src/types.h', '/src/core/ui/types.h', '/other/types.h',
+             '/src/ui/core/types.h', '/other/core/types.h']
 CFILES = ['/src/a.c', '/src/b.c', '/src/sub/c.c', '/src/foo.c', '/src/z.c']
 FUND = ['gint', 'guint', 'gboolean', 'gchararray', 'gdouble', 'gint64', 'GObject', 'GVariant']
 
@@ -407,8 +413,10 @@ class Gen(object):
         self.lines[f] = self.lines.get(f, 0) + self.rng.randint(1, 9)
         return f, self.lines[f]
 
-    def add(self, d, f=None):
-        if f is None:
+    def add(self, d, f=None, line=None):
+        if line is not None:
+            pass
+        elif f is None:
             f, line = self.pos()
         else:
             self.lines[f] = self.lines.get(f, 0) + self.rng.randint(1, 9)
@@ -456,7 +464,10 @@ class Gen(object):
         tag = '_' + ctype
         kind = 'union' if rng.random() < 0.15 else 'struct'
         shape = rng.choice(['td-st', 'td-st', 'td-st', 'st-td', 'st-td', 'td-only', 'st-only', 'anon', 'two-td',
-                            'multi-pos', 'multi-pos'])
+                            'multi-pos', 'multi-pos', 'multi-pos-tie'])
+        if getattr(self, 'force_tie', 0) > 0:
+            self.force_tie -= 1
+            shape = 'multi-pos-tie'
         self.features.add('compound:' + shape)
         info = {'typedefs': [], 'structs': [], 'shape': shape}
         fields = self.fields()
@@ -465,7 +476,22 @@ class Gen(object):
         else:
             seq = {'td-st': ['td', 'st'], 'st-td': ['st', 'td'], 'td-only': ['td'], 'st-only': ['st'],
                    'two-td': rng.choice([['td', 'td2', 'st'], ['td', 'st', 'td2'], ['st', 'td', 'td2']]),
-                   'multi-pos': None}[shape]
+                   'multi-pos': None, 'multi-pos-tie': None}[shape]
+            tie_line = None
+            if shape == 'multi-pos-tie':
+                # the struct tag is seen in headers of the SAME file name in different directories, on
+                # the SAME line (core/types.h:42 forward declaration, ui/types.h:42 definition): the
+                # positions differ in the directory only
+                self.lines['types.h'] = self.lines.get('types.h', 0) + rng.randint(1, 9)
+                tie_line = self.lines['types.h']
+                extra = rng.randint(1, 3)
+                seq = ['td'] + ['st'] + ['st0'] * extra
+                rng.shuffle(seq)
+                tie_files = rng.sample(TIE_FILES, len(seq))
+                # sometimes the typedef sits elsewhere / one struct symbol is off by a line
+                tie_lines = [tie_line] * len(seq)
+                if rng.random() < 0.25:
+                    tie_lines[rng.randrange(len(seq))] += 1
             if shape == 'multi-pos':
                 # the struct tag is seen in several headers (the risk d6b0d4f repaired): one
                 # definition with the fields + further field-less struct symbols of the same tag
@@ -473,18 +499,21 @@ class Gen(object):
                 seq = ['td'] + ['st'] + ['st0'] * extra
                 rng.shuffle(seq)
             used_files = []
-            for s in seq:
+            for n_, s in enumerate(seq):
                 f = rng.choice([x for x in FILES if x not in used_files] or FILES)
                 used_files.append(f)
+                ln = None
+                if tie_line is not None:
+                    f, ln = tie_files[n_], tie_lines[n_]
                 if s == 'td':
-                    info['typedefs'].append(self.add({'d': 'typedef', 'name': ctype, 'type': {'k': kind, 'n': tag}}, f))
+                    info['typedefs'].append(self.add({'d': 'typedef', 'name': ctype, 'type': {'k': kind, 'n': tag}}, f, ln))
                 elif s == 'td2':
                     info['typedefs'].append(self.add({'d': 'typedef', 'name': ctype + 'Alt',
-                                                      'type': {'k': kind, 'n': tag}}, f))
+                                                      'type': {'k': kind, 'n': tag}}, f, ln))
                 elif s == 'st':
-                    info['structs'].append(self.add({'d': kind, 'name': tag, 'fields': fields}, f))
+                    info['structs'].append(self.add({'d': kind, 'name': tag, 'fields': fields}, f, ln))
                 else:
-                    info['structs'].append(self.add({'d': kind, 'name': tag, 'fields': []}, f))
+                    info['structs'].append(self.add({'d': kind, 'name': tag, 'fields': []}, f, ln))
             self.tags[tag] = info
         if shape == 'st-only':
             return None
@@ -843,8 +872,9 @@ class Gen(object):
             self.includes.insert(0, 'GObject-2.0.gir')
 
 
-def gen_input(rng, rich=None):
+def gen_input(rng, rich=None, tie=0):
     g = Gen(rng)
+    g.force_tie = tie
     g.add_deps()
     for _ in range(rng.choice([1, 2, 3, 5])):
         g.add_compound()
@@ -1319,15 +1349,20 @@ def corr_basic(ctx, cnt, rng):
     # get_main_position
     def rand_positions():
         ps = set()
+        if rng.random() < 0.3:
+            # one file name in several directories, few lines: positions that differ in the directory only
+            files, lines = ['core/types.h', 'ui/types.h', 'types.h', 'core/ui/types.h', '/abs/core/types.h', 'b.h'], [42, 42, 42, 7]
+        else:
+            files, lines = ['a.h', 'b.h', 'd.h', 'sub/c.h', '', 'A.h'], [0, 1, 3, 7, 11, 120]
         for _ in range(rng.randint(0, 6)):
-            ps.add((rng.choice(['a.h', 'b.h', 'd.h', 'sub/c.h', '', 'A.h']), rng.choice([0, 1, 3, 7, 11, 120]),
-                    rng.choice([0, 0, 0, 4])))
+            ps.add((rng.choice(files), rng.choice(lines), rng.choice([0, 0, 0, 4])))
         return [(f, l, c, rng.random() < 0.4) for f, l, c in sorted(ps, key=lambda _x: rng.random())]
     poss = [rand_positions() for _ in range(ctx.n(1500, 30000))]
     reqs = [{'op': 'c16.main_position', 'positions': [{'file': f, 'line': l, 'col': c, 'typedef': t} for f, l, c, t in ps]}
             for ps in poss]
     res = ctx.driver.batch(reqs)
     bad = 0
+    tied = 0
     for ps, r in zip(poss, res):
         def real_main():
             node = m.ast.Node('x')
@@ -1355,14 +1390,19 @@ def corr_basic(ctx, cnt, rng):
                 p = node.get_main_position()
                 return None if p is None else (p.filename or '', p.line or 0, p.column or 0)
             outs = set()
-            for _ in range(3):
+            orders = list(itertools.permutations(ps)) if len(ps) <= 3 else []
+            for _ in range(0 if orders else 6):
                 order = list(ps)
                 rng.shuffle(order)
+                orders.append(order)
+            for order in orders:
                 ok, got = guarded(ctx, 'Node.get_main_position', real_perm, order)
                 if ok:
                     outs.add(got)
             outs.add(None if real is None else (real[0], real[1], real[2]))
             if len(outs) > 1:
+                tied += 1
+            if len(outs) > 1 and tied <= 2:     # the first two: the whole-pipeline cases below are reported too
                 ctx.report_failure('main_position:' + json.dumps(sorted(ps)),
                                    'get_main_position depends on the iteration order of file_positions: %r for the set %r'
                                    % (sorted(outs, key=repr), sorted(ps)), {'kind': 'main_position', 'positions': ps})
@@ -2414,6 +2454,17 @@ def run(ctx):
         inputs_run = min(i + chunk, len(inputs))
         ctx.log('metamorphic: %d/%d inputs, %d scans compared, %d subprocesses' % (inputs_run, len(inputs), n_eval, pool.spawned))
     total += n_eval
+    # ---- positions that tie on (base name, line, column): the choice among the members of the position
+    # SET shows as a difference between hash seeds only when two seeds order the set differently (about
+    # half of the seeds each way for two positions): the directed corpus cases and a few generated inputs
+    # with such tags are scanned unpermuted under 8 further PYTHONHASHSEED values
+    tie_inputs = [(k + '_t', inp) for k, inp in corpus if any(f.startswith('corpus:same-basename') for f in inp['features'])]
+    for i in range(ctx.n(4, 40)):
+        tie_inputs.append(('t%d' % i, gen_input(rng, tie=rng.choice([1, 1, 2]))))
+    tie_seeds = [(100 + s + 16 * ctx.seed) % 4294967295 for s in range(8 if ctx.quick() else 16)]
+    n_tie = metamorphic(ctx, cnt, pool, tie_inputs, tie_seeds, 0, rng, samples)
+    total += n_tie
+    ctx.log('same-base-name positions: %d inputs, %d scans compared under %d hash seeds' % (len(tie_inputs), n_tie, len(tie_seeds)))
     # ---- cache histories: several builds of one dependency, named by relative paths, cached one after the other
     n_rel = relcache(ctx, cnt, pool, rng, seeds, ctx.n(24, 160), samples)
     total += n_rel
